@@ -114,6 +114,13 @@ func (f *function) info() targetInfo {
 	return f.targetInfo
 }
 
+func (f *function) setInfo(info targetInfo) {
+	f.targetInfo = info
+	if f.always {
+		f.targetInfo.Rerun = true
+	}
+}
+
 var functionEnvKeys = []starlark.String{
 	"names",
 	"constant values",
